@@ -103,7 +103,11 @@ PROPS = {
     "C07": {"mc": [MC_POOL, MC_VAULT], "suites": [POOL_SUITE, VAULT_SUITE, POOL_STABLE, TRIO_SUITE]},
     "C08": {"mc": [MC_LAIR, MC_LAIR_SCHED], "suites": [LAIR_SCHED, LAIR_RANDOM]},
     "C20": {"mc": [_mc_ep("manager", False), _mc_ep("distributor", False), _mc_ep("manager", True), _mc_ep("distributor", True)],
-            "suites": [_ep("manager", True), _ep("distributor", True), _ep("manager", False), _ep("distributor", False)]},
+            "suites": [_ep("manager", True), _ep("distributor", True), _ep("manager", False), _ep("distributor", False)],
+            # unbounded (any duration, genesis, time steps): inductive invariant of the clock, initiation + consecution
+            "apalache": [{"module": "Ap_Epochs.tla", "tiers": ["thorough"],
+                          "steps": [["--cinit=ConstInit", "--init=Init", "--inv=IndInv", "--length=0"],
+                                    ["--cinit=ConstInit", "--init=IndInv", "--inv=IndInv", "--length=1"]]}]},
     "C16": {"mc": [{"module": "MC_Access", "quick": "MC_Access.cfg", "thorough": "MC_Access.cfg", "workers": 2, "emits": "MC_Access"}],
             "suites": [{"suite": "access", "trace": "Trace_Access", "cfg": "Trace_Access.cfg", "sched_from": "MC_Access",
                         "extra": {"mode": "sched"}, "quick": {"runs": 0}, "thorough": {"runs": 0}, "procs": 4},
